@@ -449,6 +449,8 @@ def families(run: Run):
     if not run.thorough:
         yield "depth1 widths{1,2,3} incl. mixed widths", G.depth1((1, 2, 3), mixed=True)
         yield "depth1 with typed constant operands, widths{1,2,3}", G.depth1_const((1, 2, 3), mixed=True)
+        yield "nested constant slice/index chains (length 1..3)", G.slice_chains(quick=True)
+        yield "conversions by assignment/construction, widths{1,2,3}", G.conversions((1, 2, 3))
         # beyond the complete bound: a seed-chosen 1/50 stratum of the depth-2 family
         pick = run.seed % 50
         yield f"depth2 widths{{1,2}} stratum {pick}/50 (seed-chosen)", (
@@ -456,6 +458,8 @@ def families(run: Run):
     else:
         yield "depth1 widths{1..4} incl. mixed widths", G.depth1((1, 2, 3, 4), mixed=True)
         yield "depth1 with typed constant operands, widths{1..4}", G.depth1_const((1, 2, 3, 4), mixed=True)
+        yield "nested constant slice/index chains (length 1..3)", G.slice_chains(quick=False)
+        yield "conversions by assignment/construction, widths{1..4}", G.conversions((1, 2, 3, 4))
         yield "depth2 widths{1,2}", G.depth2((1, 2))
 
 
